@@ -69,6 +69,54 @@ class Verdict:
         self.reason = reason
 
 
+def guarded_check(solver, timeout_ms):
+    """solver.check() under a hard wall-clock limit.  z3's own timeout is cooperative and its sequence solver occasionally never polls it
+    (observed: 18 min at 100 % CPU on a 10 s budget), so the check runs in a forked child that is killed at 1.5 x budget + 5 s; the child's
+    verdict is returned.  'sat' is re-run in this process only when the caller needs the model object (it terminated once within budget).
+    Returns (z3.CheckSatResult, reason)."""
+    import select
+    if os.environ.get("VERIF_NO_GUARD") == "1":
+        r = solver.check()
+        return r, (solver.reason_unknown() if r == z3.unknown else "")
+    rd, wr = os.pipe()
+    pid = os.fork()
+    if pid == 0:
+        code = 1
+        try:
+            os.close(rd)
+            r = solver.check()
+            msg = str(r) + ("|" + solver.reason_unknown() if r == z3.unknown else "")
+            os.write(wr, msg.encode()[:400])
+            code = 0
+        finally:
+            os._exit(code)
+    os.close(wr)
+    limit = int(timeout_ms) / 1000.0 * 1.5 + 5.0
+    data = b""
+    try:
+        ready, _, _ = select.select([rd], [], [], limit)
+        if ready:
+            data = os.read(rd, 512)
+        else:
+            try:
+                os.kill(pid, 9)
+            except OSError:
+                pass
+            data = b"unknown|z3 ignored its timeout; killed after %.0f s" % limit
+    finally:
+        os.close(rd)
+        try:
+            os.waitpid(pid, 0)
+        except OSError:
+            pass
+    head, _, reason = data.decode(errors="replace").partition("|")
+    if head == "unsat":
+        return z3.unsat, ""
+    if head == "sat":
+        return z3.sat, ""
+    return z3.unknown, reason or "solver process died"
+
+
 def check_sat(assertions, timeout_ms=10000, want_model=True, use_cvc5=True):
     """Satisfiability of the conjunction. z3 first; `unknown` goes to cvc5 (CLI) with the same budget."""
     t0 = time.time()
@@ -76,13 +124,15 @@ def check_sat(assertions, timeout_ms=10000, want_model=True, use_cvc5=True):
     s.set(timeout=int(timeout_ms))
     for a in assertions:
         s.add(a)
-    r = s.check()
+    r, reason = guarded_check(s, timeout_ms)
+    if r == z3.sat and want_model and os.environ.get("VERIF_NO_GUARD") != "1":
+        r = s.check()                       # same query, terminated within budget a moment ago: this time for the model object
+        reason = s.reason_unknown() if r == z3.unknown else ""
     dt = time.time() - t0
     if r == z3.unsat:
         return Verdict("unsat", "z3", dt)
     if r == z3.sat:
         return Verdict("sat", "z3", dt, s.model() if want_model else None)
-    reason = s.reason_unknown()
     if use_cvc5 and os.path.exists(CVC5_BIN):
         v = _cvc5(s, timeout_ms)
         if v is not None:
